@@ -286,8 +286,11 @@ func monC08(c *drv.Ctx) {
 		for k := 0; k < n; k++ {
 			if r.Intn(3) == 0 {
 				raw := gen.Bytes(r, 1+r.Intn(12))
-				if r.Intn(4) == 0 {
+				switch r.Intn(8) {
+				case 0, 1:
 					raw = gen.Bytes(r, 64+r.Intn(200))
+				case 2:
+					raw = gen.Bytes(r, 2000+r.Intn(4000)) // a good part of the reader's first block is used up before the next value
 				}
 				items = append(items, item{raw: raw})
 				stream = append(stream, raw...)
@@ -295,6 +298,10 @@ func monC08(c *drv.Ctx) {
 			}
 			t := ref.KnownTypes[r.Intn(len(ref.KnownTypes))]
 			v := gen.Tree(r, t, gen.TreeOpts{MaxDepth: 3, MaxElems: 4, NoBigCounts: true}, 0)
+			if r.Intn(8) == 0 {
+				t = ref.STRING
+				v = ref.Value{T: ref.STRING, S: gen.Bytes(r, 3000+r.Intn(7000))} // does not fit what is left of the block
+			}
 			enc := v.Encode(nil)
 			items = append(items, item{enc: enc, t: t})
 			stream = append(stream, enc...)
@@ -383,6 +390,59 @@ func monC08(c *drv.Ctx) {
 			cs.C.Obs("values skipped by a decoder sharing its reader", 1)
 		}
 		cs.Count(len(items) >= 3, hexOf(stream), kind)
+	})
+
+	// (4b'') a struct walked field by field by the application: the field headers taken with the exported SkipN of
+	// the decoder, each field value with Next - which returns that value and nothing else
+	c.Stage("field-walk-with-skipn", c.Pick(4000, 80000), false, func(cs *drv.Case) {
+		r := cs.R
+		v := gen.Tree(r, ref.STRUCT, gen.TreeOpts{MaxDepth: 3, MaxElems: 6, NoBigCounts: true, AnyFieldIDs: true}, 0)
+		enc := v.Encode(nil)
+		// (only the decoder over a plain io.Reader: its SkipN takes the bytes from the source for good, so the source
+		// stands at the value when Next is called; the SkipN of the other two decoders only looks ahead)
+		kind := 0
+		names := []string{"ReaderSkipDecoder"}
+		x := thrift.NewReaderSkipDecoder(&doubles.Source{Data: enc, Len: len(enc), ErrAt: len(enc), Err: io.EOF, Sched: r.Intn(doubles.NSched), R: r, WithData: r.Intn(2) == 0, Budget: 10*len(enc) + 100000})
+		defer x.Release()
+		var d thrift.SkipDecoderIface = x
+		next := x.Next
+		cs.Desc = M{"decoder": names[kind], "fields": len(v.Fields), "struct_hex": hexOf(enc)}
+		pos := 0
+		for k := 0; ; k++ {
+			tb, err := d.SkipN(1)
+			if err != nil || len(tb) != 1 || tb[0] != enc[pos] {
+				cs.Fail("skip-content-or-position", M{"skipper": names[kind], "walk": "type byte"}, M{"field": k, "offset": pos, "err": errString(err), "got": hexOf(tb)})
+				return
+			}
+			pos++
+			if tb[0] == 0 {
+				break
+			}
+			t := thrift.TType(tb[0])
+			ib, err := d.SkipN(2)
+			if err != nil || len(ib) != 2 || !bytes.Equal(ib, enc[pos:pos+2]) {
+				cs.Fail("skip-content-or-position", M{"skipper": names[kind], "walk": "field id"}, M{"field": k, "offset": pos, "err": errString(err), "got": hexOf(ib)})
+				return
+			}
+			pos += 2
+			want := v.Fields[k].V.Encode(nil)
+			out, err := next(t)
+			if err != nil {
+				cs.Fail("skip-rejected-wellformed", M{"skipper": names[kind], "walk": "field value"}, M{"field": k, "offset": pos, "err": errString(err)})
+				return
+			}
+			if !bytes.Equal(out, want) {
+				cs.Fail("skip-wrong-extent", M{"skipper": names[kind], "walk": "field value"}, M{"field": k, "offset": pos, "message": fmt.Sprintf("Next returned %d bytes (%s...), the field's value has %d", len(out), hexOf(out[:minInt(len(out), 12)]), len(want))})
+				return
+			}
+			pos += len(want)
+		}
+		if pos != len(enc) {
+			cs.Fail("skip-wrong-extent", M{"skipper": names[kind], "walk": "end"}, M{"message": fmt.Sprintf("walk ended at %d of %d", pos, len(enc))})
+			return
+		}
+		cs.Count(len(v.Fields) > 0, hexOf(enc), kind)
+		cs.C.Obs("struct fields walked with SkipN + Next", int64(len(v.Fields)))
 	})
 
 	// (4c) size fields with the sign bit set that are followed by as many bytes as their unsigned reading
